@@ -78,14 +78,16 @@ C10.update({
     ("frontend::filters::validity::ordering_types_valid", "unwrap<-local"): (5, "SEMANTIC", "C10 r3 table"),
     ("frontend::filters::validity::string_operation_types_valid", "unwrap<-Argument::as_tag"): (1, "SEMANTIC", "C10 r3 table"),
     ("frontend::filters::validity::string_operation_types_valid", "unwrap<-local"): (3, "SEMANTIC", "C10 r3 table"),
-    ("frontend::get_edge_definition_from_schema", "unreachable!(internal error: entered unreachable code)"): (1, "GUARD:G-VALIDATE", "the edge exists on the type: validate_field looked it up in schema.fields"),
+    ("frontend::get_edge_definition_from_schema", "unreachable!(internal error: entered unreachable code)"): (1, "GUARD:G-VALIDATE+G-ROOT-IS-EDGE", "the edge exists on the type: validate_field looked it up in schema.fields; its only lookup-free path, "
+                                             "`__typename`, is a property and is refused at the root (the one place lowered as an edge without a parent)"),
     ("frontend::get_field_name_and_type_from_schema", "unreachable!(internal error: entered unreachable code)"): (1, "GUARD:G-VALIDATE", "the field exists on the type (validated)"),
     ("frontend::get_recurse_implicit_coercion", "index &BTreeMap<(Arc<str>, Arc<str>), schema::FieldOrigin>"): (1, "GUARD:G-VALIDATE", "field_origins has an entry for every (type, field) of the schema; the edge was validated on source_type"),
     ("frontend::get_recurse_implicit_coercion", "index &HashMap<(Arc<str>, Arc<str>), async_graphql_parser::types::service::FieldDefinition>"):
         (1, "INVARIANT", "a SingleAncestor origin names a type that defines the field (schema construction)"),
     ("frontend::get_vertex_field_definitions", "index &HashMap<Arc<str>, async_graphql_parser::types::service::TypeDefinition>"): (1, "GUARD:G-VALIDATE", "type names come from validated fields / coercions"),
     ("frontend::get_vertex_field_definitions", "unreachable!(internal error: entered unreachable code)"): (1, "INVARIANT", "vertex_types holds only Object / Interface definitions (Schema::new)"),
-    ("frontend::make_duplicated_output_names_error", "index &BTreeMap<ir::Vid, ir::IRVertex>"): (2, "INVARIANT", "outputs are registered for vertices that were created in the same walk"),
+    ("frontend::make_duplicated_output_names_error", "index &BTreeMap<ir::Vid, ir::IRVertex>"): (2, "GUARD:G-DUP-VERTICES", "both call sites pass a map that holds the component's vertices and those of its folds' components "
+                                                                                                   "(a fold's count output refers to the fold's root vertex)"),
     ("frontend::make_edge_parameters", "assert!()"): (1, "GUARD:G-SCHEMA-DEFAULTS", "Schema::new rejects defaults that do not fit the parameter type"),
     ("frontend::make_edge_parameters", "unwrap<-BTreeMapTryInsertExt::insert_or_error"): (1, "EXTERNAL", "a schema field cannot declare two arguments with one name (parser / schema validation)"),
     ("frontend::make_edge_parameters", "unwrap<-TryFrom::try_from"): (1, "GUARD:G-SCHEMA-DEFAULTS", "Schema::new converted every default value successfully"),
